@@ -9,6 +9,7 @@ import (
 	"encoding/json"
 	"fmt"
 	"math/big"
+	"strconv"
 	"strings"
 
 	ethcmn "github.com/ethereum/go-ethereum/common"
@@ -545,9 +546,20 @@ func (x *mctx) nativeMutants() []Mut {
 func (x *mctx) olvmMutants() []Mut {
 	var out []Mut
 	add := func(op string, m *mTx) {
-		// known crash "OLVM:nil-chainid": a payload that parses but has no chain id
-		if pl, err := parseOLVM(m.Data); err == nil && pl.ChainID == nil && x.excl != nil && x.excl("OLVM:nil-chainid") {
-			return
+		if pl, err := parseOLVM(m.Data); err == nil && x.excl != nil {
+			// known crash "OLVM:nil-chainid": a payload that parses but has no chain id
+			if pl.ChainID == nil && x.excl("OLVM:nil-chainid") {
+				return
+			}
+			// known finding "OLVM:unsigned-payload-member", reached through another operator (e.g. a
+			// bit flip inside the payload's type member, or a memo that still parses to the nonce)
+			unsignedMember := pl.TxType != 0 || !emptyAccessList(pl.AccessList)
+			if n, err := strconv.ParseUint(m.Memo, 10, 64); err == nil && n == pl.Nonce && m.Memo != strconv.FormatUint(pl.Nonce, 10) {
+				unsignedMember = true
+			}
+			if unsignedMember && !strings.HasPrefix(op, "olvm-") && x.excl("OLVM:unsigned-payload-member") {
+				return
+			}
 		}
 		out = append(out, Mut{op, m.encode()})
 	}
